@@ -46,7 +46,14 @@ class Marked:
         self.inner.close()
 
 
-def build(driver, mode, oplog, d, chooser=None, interval=1):
+PRE = {
+    "log": b"old header\nold row 1\n",
+    "traj": b'1\nLattice="5.0 0.0 0.0 0.0 5.0 0.0 0.0 0.0 5.0" Properties=species:S:1:pos:R:3 pbc="T T T"\nAr       0.00000000       0.00000000       0.00000000\n',
+    "restart": json.dumps({"atoms": "state of a previous, larger run", "pad": "x" * 6000}).encode(),
+}
+
+
+def build(driver, mode, oplog, d, chooser=None, interval=1, preexisting=False):
     from quansino.mc.canonical import Canonical
     from quansino.mc.fbmc import ForceBias
     from quansino.mc.gcmc import GrandCanonical
@@ -55,6 +62,10 @@ def build(driver, mode, oplog, d, chooser=None, interval=1):
     from quansino.operations.displacement import Ball
 
     tags = ["log", "traj"] + ([] if driver == "ForceBias" else ["restart"])
+    if preexisting:
+        for t in tags:
+            with open(os.path.join(d, t), "wb") as f:
+                f.write(PRE[t])
     files = {t: CrashFile(os.path.join(d, t), mode, oplog, t) for t in tags}
     pos = np.array([[1.0, 1.2, 0.9], [3.1, 2.2, 4.0]])
     atoms = Atoms("Ar2", positions=pos, cell=[6.0] * 3, pbc=True)
@@ -93,15 +104,19 @@ def one_json_document(text: str):
     return doc if isinstance(doc, dict) and "atoms" in doc else None
 
 
-def analyse(oplog: OpLog, driver, mode, add, counters, where):
+def analyse(oplog: OpLog, driver, mode, add, counters, where, preexisting=False):
     """Walk the operation log: completed-call checks at marks, crash-state checks at every op."""
     from ase.io import read as ase_read
     from ase.io.jsonio import decode
 
-    last = {"log": b"", "traj": b"", "restart": b""}  # disk content after the previous op on that file
-    completed = {"log": b"", "traj": b"", "restart": None}  # content at the last completed call
+    keep = preexisting and mode == "a"  # 'w' truncates on open
+    pre = {t: (PRE[t] if keep else b"") for t in PRE}
+    last = dict(pre)  # disk content after the previous op on that file
+    completed = {"log": pre["log"], "traj": pre["traj"], "restart": None}  # content at the last completed call
     ncalls = {"log": 0, "traj": 0, "restart": 0}
-    saved_docs: list[bytes] = []
+    saved_docs: list[bytes] = [pre["restart"]] if keep else []
+    pre_lines = pre["log"].count(b"\n")
+    pre_frames = 1 if keep else 0
     marks_at: dict[int, list] = {}
     for idx, tag, info in oplog.marks:
         marks_at.setdefault(idx, []).append((tag, info))
@@ -135,7 +150,7 @@ def analyse(oplog: OpLog, driver, mode, add, counters, where):
             if mtag == "log":
                 text = cur.decode()
                 lines = text.split("\n")
-                if not text.endswith("\n") or len(lines) - 1 != 1 + ncalls["log"] or "Step" not in lines[0]:
+                if not text.endswith("\n") or len(lines) - 1 != pre_lines + 1 + ncalls["log"] or "Step" not in lines[pre_lines]:
                     add(f"{sig0}/log/not-header-plus-one-flushed-line-per-call", f"after call {ncalls['log']} the file on disk has {len(lines) - 1} complete lines (ends with newline: {text.endswith(chr(10))}); {where}")
                 if not cur.startswith(completed["log"]):
                     add(f"{sig0}/log/earlier-bytes-changed", f"after call {ncalls['log']}; {where}")
@@ -147,7 +162,7 @@ def analyse(oplog: OpLog, driver, mode, add, counters, where):
                     nfr, lastn = len(frames), len(frames[-1])
                 except Exception as e:  # noqa: BLE001
                     nfr, lastn = -1, repr(e)[:80]
-                if nfr != ncalls["traj"] or lastn != info["n"]:
+                if nfr != pre_frames + ncalls["traj"] or lastn != info["n"]:
                     add(f"{sig0}/traj/not-one-complete-frame-per-call", f"after call {ncalls['traj']} the file on disk parses to {nfr} frames (last has {lastn} atoms, simulation has {info['n']}); {where}")
             else:
                 text = cur.decode("utf-8", "replace")
@@ -180,7 +195,7 @@ def task_gc(arg):
         d = scratch_dir()
         oplog = OpLog()
         try:
-            sim, atoms, files = build("GrandCanonical", mode, oplog, d, chooser=ch, interval=arg.get("interval", 1))
+            sim, atoms, files = build("GrandCanonical", mode, oplog, d, chooser=ch, interval=arg.get("interval", 1), preexisting=arg.get("pre", False))
             err = None
             try:
                 sim.run(depth)
@@ -216,7 +231,7 @@ def task_gc(arg):
             add(f"C16/GrandCanonical/mode-{mode}/exception", f"{err}; {where}")
             continue
         sizes.add(n_final)
-        analyse(oplog, "GrandCanonical", mode, add, counters, where)
+        analyse(oplog, "GrandCanonical", mode, add, counters, where + (" (files with earlier content)" if arg.get("pre") else ""), preexisting=arg.get("pre", False))
     counters["transitions"] = st.points
     return {"counters": counters, "violations": viol, "sets": {"final_sizes": list(sizes)}, "samples": []}
 
@@ -234,7 +249,7 @@ def task_fixed(arg):
     d = scratch_dir()
     oplog = OpLog()
     try:
-        sim, atoms, files = build(driver, mode, oplog, d, interval=arg.get("interval", 1))
+        sim, atoms, files = build(driver, mode, oplog, d, interval=arg.get("interval", 1), preexisting=arg.get("pre", False))
         try:
             sim.run(arg["steps"])
             sim.close()
@@ -243,9 +258,61 @@ def task_fixed(arg):
     finally:
         cleanup(d)
     counters["ops"] = len(oplog.ops)
-    analyse(oplog, driver, mode, add, counters, f"{driver} run({arg['steps']}) interval {arg.get('interval', 1)}")
+    analyse(oplog, driver, mode, add, counters, f"{driver} run({arg['steps']}) interval {arg.get('interval', 1)}" + (" (files with earlier content)" if arg.get("pre") else ""), preexisting=arg.get("pre", False))
     sample = {"driver": driver, "mode": mode, "first_operations": [[t, o, len(b)] for t, o, b in oplog.ops[:14]], "marks": js(oplog.marks[:6])}
     return {"counters": counters, "violations": viol, "samples": [sample]}
+
+
+class Boom(RuntimeError):
+    pass
+
+
+def task_fault(arg):
+    """A logger field function raises during call k (e.g. a failing calculator); the user catches
+    the exception and continues the run.  The log must still consist of complete rows only."""
+    driver, mode, pos, k = arg["driver"], arg["mode"], arg["pos"], arg["k"]
+    counters = {"executions": 1, "crash_states": 0, "nontrivial": 0, "completed_calls": 0, "ops": 0}
+    viol = []
+    d = scratch_dir()
+    oplog = OpLog()
+    try:
+        sim, atoms, files = build(driver, mode, oplog, d)
+        logger = sim.default_logger
+        state = {"calls": 0}
+
+        def faulty():
+            state["calls"] += 1
+            if state["calls"] == k + 1:
+                raise Boom("field evaluation failed")
+            return 1.5
+
+        items = list(logger.fields.items())
+        new = ("Faulty", {"function": faulty, "str_format": "{:10.3f}", "header_format": "{:>10s}", "is_array": False})
+        idx = {"first": 0, "middle": len(items) // 2, "last": len(items)}[pos]
+        items.insert(idx, new)
+        logger.fields = dict(items)
+        total, failures = arg["steps"], 0
+        while sim.step_count < total or failures == 0 and k == 0 and state["calls"] == 0:
+            try:
+                sim.run(total - sim.step_count)
+            except Boom:
+                failures += 1
+                if failures > 3:
+                    break
+        sim.close()
+        with open(os.path.join(d, "log"), "rb") as f:
+            text = f.read().decode()
+    finally:
+        cleanup(d)
+    counters["ops"] = len(oplog.ops)
+    counters["crash_states"] = 1
+    counters["nontrivial"] = 1
+    lines = text.split("\n")
+    ncols = len(lines[0].split())
+    bad = [i for i, l in enumerate(lines[1:-1], 1) if len(l.split()) != ncols]
+    if not text.endswith("\n") or bad:
+        viol.append({"signature": f"C16/{driver}/mode-{mode}/log/torn-row-after-failing-field/{pos}", "what": f"a field function raised during logger call {k}; after the run was continued the log holds malformed rows at lines {bad[:3]} (expected {ncols} columns): {[lines[i] for i in bad[:2]]}", "replay": {"check": PID, "func": "task_fault", "arg": arg}})
+    return {"counters": counters, "violations": viol, "samples": []}
 
 
 def run(tier, seed):
@@ -257,8 +324,14 @@ def run(tier, seed):
         args.append({"mode": "a", "depth": 4, "interval": 2})
     for r in pmap(__name__, "task_gc", args):
         acc.add(r)
+    for r in pmap(__name__, "task_gc", [{"mode": m, "depth": depth - 1, "pre": True} for m in ("a", "w")]):
+        acc.add(r)
     fixed = [{"driver": d, "mode": m, "steps": 4, "interval": iv} for d in ("Canonical", "ForceBias") for m in ("a", "w") for iv in (1, 2)]
+    fixed += [{"driver": d, "mode": m, "steps": 3, "interval": 1, "pre": True} for d in ("Canonical", "ForceBias") for m in ("a", "w")]
     for r in pmap(__name__, "task_fixed", fixed):
+        acc.add(r)
+    faults = [{"driver": d, "mode": "a", "pos": p, "k": k, "steps": 3} for d in ("Canonical", "ForceBias") for p in ("first", "middle", "last") for k in range(0, 4)]
+    for r in pmap(__name__, "task_fault", faults):
         acc.add(r)
     rep.violations = acc.violations
     rep.coverage = {
@@ -277,6 +350,6 @@ def run(tier, seed):
 
 
 def replay(data):
-    f = {"task_gc": task_gc, "task_fixed": task_fixed}[data["func"]]
+    f = {"task_gc": task_gc, "task_fixed": task_fixed, "task_fault": task_fault}[data["func"]]
     res = f(data["arg"])
     return {"signatures": sorted({v["signature"] for v in res["violations"]})}
